@@ -566,32 +566,5 @@ Proof.
       rewrite (rpath_into i p k1 k k2 n Hnd Hn), H2. reflexivity.
 Qed.
 
-(* ---------------------------------------------------------------- post-order through matching children only *)
-Lemma post_pruned_unfold F i p kids :
-  post_pruned F (INode i p kids) = flat_map (fun k => if F (iid k) then post_pruned F k else []) kids ++ [i].
-Proof. reflexivity. Qed.
 Lemma post_ids_unfold i p kids : post_ids (INode i p kids) = flat_map post_ids kids ++ [i].
 Proof. reflexivity. Qed.
-Lemma flat_map_if_filter {A B} (P : A -> bool) (f : A -> list B) l :
-  flat_map (fun k => if P k then f k else []) l = flat_map f (filter P l).
-Proof. induction l as [|k r IH]; [reflexivity|]. cbn. destruct (P k); cbn; rewrite IH; reflexivity. Qed.
-Lemma pruned_unfold t : NoDup (ids t) -> forall F n, In n (ids t) ->
-  a_df_btt_pruned t F n = flat_map (a_df_btt_pruned t F) (filter F (a_children t n)) ++ [n].
-Proof.
-  intros Hnd F n Hn. destruct (a_sub_of_id t Hnd n Hn) as [s [Hs [E Hsub]]]. unfold a_df_btt_pruned at 1, a_children. rewrite Hsub.
-  destruct s as [i p kids] eqn:Es. rewrite post_pruned_unfold. cbn [iid] in E. subst i. f_equal.
-  unfold kid_ids. cbn [ikids]. rewrite <- flat_map_if_filter, flat_map_map. apply flat_map_ext_in'. intros k Hk.
-  unfold a_df_btt_pruned. rewrite (a_sub_in t Hnd k); [reflexivity|]. apply (kid_in_subtrees t (INode n p kids) k Hs). exact Hk.
-Qed.
-(* when a non-matching node has only non-matching descendants the pruned order is the restriction of the post-order *)
-Lemma post_pruned_filter F : forall s, hid_closed F s ->
-  post_pruned F s = filter F (flat_map post_ids (ikids s)) ++ [iid s].
-Proof.
-  induction s as [i p kids IH] using itree_ind'. intros Hh. rewrite post_pruned_unfold. cbn [ikids iid]. f_equal.
-  rewrite filter_flat_map. apply flat_map_ext_in'. intros k Hk. rewrite Forall_forall in IH.
-  assert (Hks : In k (subtrees (INode i p kids))) by (apply (kid_in_subtrees _ (INode i p kids) k (self_in_subtrees _)); exact Hk).
-  destruct (F (iid k)) eqn:E.
-  - rewrite (IH k Hk (hid_closed_sub F _ k Hh Hks)). destruct k as [j pk kk]. rewrite post_ids_unfold, filter_app. cbn [ikids iid filter] in *.
-    rewrite E. reflexivity.
-  - symmetry. apply filter_none. intros x Hx. apply (Hh k Hks E). exact (Permutation_in x (post_perm k) Hx).
-Qed.
